@@ -218,6 +218,8 @@ theorem copySlots_cons {rec : CopyFn} {h h1 : Heap} {x : String} {v : Val} {t fs
     | fuel => cases e
     | notImpl => cases e
     | unknown => cases e
+    | value => cases e
+    | index => cases e
 
 theorem copyValues_cons {rec : CopyFn} {h h1 : Heap} {x : String} {v : Val} {t fs1 : Slots}
     (e : copyValues rec h ((x, v) :: t) = .ok (h1, fs1)) :
